@@ -373,7 +373,7 @@ def r5_2_once(ctx):
                "`%s` can execute twice on the same successor object (created at %s, outside this loop): the second time the square no longer holds the piece whose key is XORed out, so the keys of the later successors are wrong" % (
                    site.b.text_at(loc)[:70], site.b.where(site.loc)))
     ctx.ob("raw-square-writes-once-per-object", not an.second_square_write, "", "%d raw square writes on successors; each object is written at most once" % n, nontrivial=False)
-    ctx.floor("raw square writes on successors", n, 3)
+    ctx.floor("raw square writes on successors", n, 1)
 
 
 def r5_2_epclear(ctx):
@@ -520,20 +520,35 @@ def r2_7(ctx):
             if emp:
                 colours = ctx.facts.enum_variant_by_discr("board::PieceColor")
                 pp = [i for i in range(1, b.arg_count + 1) if b.local_ty(i) == "board::Piece"]
-                from wa.cond import enum_value_on_trace
                 from wa.linear import linear
-                for loc, ev in emp:
-                    st = b.stmts(loc[0])[loc[1]]
-                    idx = [ex.local(e["local"], loc) for e in st["place"]["proj"] if e["k"] == "index"]
-                    poss = enum_value_on_trace(b, ex, loc[0], ("field", ("arg", pp[0]), "color"), colours) if pp else set()
-                    okp = False
-                    if len(idx) == 2 and len(poss) == 1:
-                        mover = next(iter(poss))
-                        lr, lc = linear(idx[0]), linear(idx[1])
-                        okp = lr is not None and lc is not None and lr[0] == {("field", to, "0"): 1} and lr[1] == -chess.PAWN[mover]["dir"] and lc[0] == {("field", to, "1"): 1} and lc[1] == 0
-                    ctx.ob("%s:ep-removes-the-passed-pawn:%s" % (site.name, sorted(poss)), okp, b.where(loc),
-                           "the square emptied by the en-passant capture is (target.row %+d, target.col) for a %s capturer: one step behind the target" % (
-                               -chess.PAWN[next(iter(poss))]["dir"] if len(poss) == 1 else 0, sorted(poss)))
+                # per capturer colour: on the body specialised to that colour, every square emptied on
+                # this successor is (target.row - dir, target.col) — whether the two colours are two
+                # branches each with its own write, or one write of a square selected by `match color`
+                col_e = ("field", ("arg", pp[0]), "color") if pp else None
+                for mover in ("White", "Black"):
+                    if col_e is None:
+                        break
+                    b2, ex2, ref = specialise(b, {col_e: ("eq", mover)}, {col_e: colours})
+                    if site.bb not in b2.reachable:
+                        continue
+                    found = 0
+                    okp = True
+                    where = site.loc
+                    for loc, ev in emp:
+                        if loc[0] not in b2.reachable or not (loc[0] == site.bb or b2.reaches(site.bb, loc[0])):
+                            continue
+                        found += 1
+                        where = loc
+                        st = b.stmts(loc[0])[loc[1]]
+                        idx = [ex2.local(e["local"], loc) for e in st["place"]["proj"] if e["k"] == "index"]
+                        ok1 = False
+                        if len(idx) == 2:
+                            lr, lc = linear(idx[0]), linear(idx[1])
+                            ok1 = lr is not None and lc is not None and lr[0] == {("field", to, "0"): 1} and lr[1] == -chess.PAWN[mover]["dir"] and lc[0] == {("field", to, "1"): 1} and lc[1] == 0
+                        okp = okp and ok1
+                    ctx.ob("%s:ep-removes-the-passed-pawn:%s" % (site.name, mover), found > 0 and okp, b.where(where),
+                           "the square emptied by the en-passant capture is (target.row %+d, target.col) for a %s capturer: one step behind the target%s" % (
+                               -chess.PAWN[mover]["dir"], mover, "" if found else " — no square is emptied on the %s trace" % mover))
         elif not mp and lm:
             # promote_pawn: parameters (start, target)
             pts = [i for i in range(1, b.arg_count + 1) if b.local_ty(i) == "board::Point"]
@@ -558,4 +573,4 @@ def r2_7(ctx):
                                 a2 = caller.ex.call_args(cmp_[0][0][0])
                                 okc = strip_refs(ca[pts[0] - 1]) == strip_refs(a2[1]) and strip_refs(ca[pts[1] - 1]) == strip_refs(a2[2])
                                 ctx.ob("%s:hand-over(from,to)@%d" % (caller.name, loc[0]), okc, caller.b.where(loc), "promote_pawn receives the from/to squares of the move just made, in that order")
-    ctx.floor("move identity sites", n, 3)
+    ctx.floor("move identity sites", n, 2)
